@@ -825,6 +825,27 @@ func (fv *FuncVerifier) verifyUnit(lit *ast.FuncLit) {
 	outs := fv.execBlock(st, env, body.List)
 	nres := sig.Results().Len()
 	retIdx := 0
+	// exceptional exits: a panic raised by called code unwinds through this function: its pending deferred calls run
+	// (LIFO), then the `onpanic` clauses must hold (no result values; old() is the entry state)
+	if lit == nil && fi.Contr.Has("onpanic", 0) {
+		pexits := fv.panicStates
+		fv.panicStates = nil
+		for pi, pe := range pexits {
+			s2 := pe.st
+			for i := len(s2.defers) - 1; i >= 0; i-- {
+				fv.evalCall(s2, env, s2.defers[i].call)
+			}
+			for _, cl := range fi.Contr.Get("onpanic", 0, 0) {
+				g := fv.evalClause(s2, cl, pos, nil, nil)
+				fv.obls = append(fv.obls, &Obligation{Func: fi.Key, Class: "F", Kind: "onpanic", Site: pe.site, Pos: fv.pos(pe.site),
+					Assume: append([]Term(nil), s2.pc...), Goal: g, Desc: "when " + pe.why + " (exceptional exit after the pending defers ran): " + cl.Text, consts: fv.consts,
+					Name: fmt.Sprintf("%s#F.onpanic[%d]", fi.Key, cl.Ord)})
+				s2.Assume(g)
+			}
+			_ = pi
+		}
+		fv.panicStates = nil
+	}
 	for _, o := range outs {
 		switch o.kind {
 		case okNormal, okReturn:
